@@ -155,13 +155,23 @@ Proof. destruct l; auto. intros H. exfalso. apply (H a). left; auto. Qed.
 Lemma boundary_arith : forall W a h, 0 < W -> a mod W = 0 -> a + W - 1 = h -> (h + 1) mod W = 0.
 Proof. intros. replace (h + 1) with (a + W) by lia. apply mod0_add; auto. Qed.
 
+(* a window that ends at h is the window of h *)
+Lemma align_end : forall W a h, 0 < W -> a mod W = 0 -> a + W - 1 = h -> align W h = a.
+Proof.
+  intros W a h HW Ha He. unfold align. apply N.mod_divides in Ha; [|lia]. destruct Ha as [q Hq].
+  assert (Hm : h mod W = W - 1).
+  { symmetry. apply N.mod_unique with q; lia. }
+  rewrite Hm. lia.
+Qed.
+
 Lemma revert_consistent : forall W d h hb ws,
   0 < W -> consistent W d = true -> d_height d = Some h -> header d h = Some hb ->
-  op_ok W d Revert = true ->
+  ((h =? 0) || block_full d (h - 1)) = true ->
   (ws = [] \/ exists a, ws = [WWindow a None]) ->
+  ((h + 1) mod W = 0 -> ws = [WWindow (align W h) None]) ->
   consistent W (apply_batch d (revert_batch hb ws)) = true.
 Proof.
-  intros W d h hb ws HW Hc Hh Hd Hok Hws.
+  intros W d h hb ws HW Hc Hh Hd Hp Hws Hsync.
   assert (Hwo : Forall window_only ws).
   { destruct Hws as [->|[a ->]]; repeat constructor. }
   destruct (revert_fields d hb ws Hwo) as (A & B & C & D & E).
@@ -169,14 +179,17 @@ Proof.
   apply (consistent_some W d h Hh) in Hc as [Hsn [hb0 I]]. destruct I as [i_head0 i_full0 i_ent0 i_link0 i_state0 i_win0].
   rewrite Hd in i_head0. inversion i_head0; subst hb0. clear i_head0.
   assert (Hnum : b_num hb = h). { apply find_num_some in Hd. tauto. }
-  unfold op_ok in Hok. rewrite Hh in Hok. apply andb_true_iff in Hok as [Hb Hp].
-  assert (Hbd : (h + 1) mod W <> 0). { destruct ((h + 1) mod W =? 0) eqn:X; simpl in Hb; [discriminate|lia]. }
   assert (Hwin : forall a c, In (a, c) (d_windows d') -> a mod W = 0 /\ a + W - 1 < h).
   { intros a c Hin. rewrite E in Hin.
     assert (Hin' : In (a, c) (d_windows d)).
     { destruct Hws as [->|[a0 ->]]; simpl in Hin; auto. eapply In_win_del; eauto. }
     destruct (i_win0 a c Hin') as [M L]. split; auto.
-    assert (a + W - 1 <> h). { intros X. apply Hbd. eapply boundary_arith; eauto. }
+    assert (a + W - 1 <> h).
+    { intros X. destruct ((h + 1) mod W =? 0) eqn:Hb.
+      - apply N.eqb_eq in Hb. rewrite (Hsync Hb) in Hin. simpl in Hin. unfold win_del in Hin.
+        apply filter_In in Hin as [_ Hq]. simpl in Hq.
+        rewrite (align_end W a h HW M X) in Hq. rewrite N.eqb_refl in Hq. discriminate.
+      - apply N.eqb_neq in Hb. apply Hb. eapply boundary_arith; eauto. }
     lia. }
   assert (Hsn' : snap_ok W d' = true). { unfold snap_ok. rewrite D. exact Hsn. }
   assert (Hkeep : forall f x, In x (d_fam d' f) -> In x (d_fam d f) /\ b_num x < h).
